@@ -1231,7 +1231,10 @@ def nested_values(cls_name):
 
 def domain(kind):
     if kind in ("forbid_change", "forbid", "use_first", "use_last") or (isinstance(kind, tuple) and kind[0] == "apply"):
-        return [NS, 0, 1]
+        # None is a value like any other (Optional fields: lag, svi, subif, multihop ...): a handler that assigns None has
+        # said something, unlike one that leaves the field alone (NOT_SET)
+        # (not for ApplyFunc mergers: max / + are not defined on None)
+        return [NS, 0, 1] if isinstance(kind, tuple) else [NS, None, 0, 1]
     if kind == "unite":
         return [NS] + [["set", list(s)] for s in ((), (X,), (Y,), (X, Y))]
     if kind == "concat":
